@@ -1,10 +1,15 @@
 package conf
 
 import (
+	"strings"
+
 	"pgregory.net/rapid"
 )
 
 var zones = []string{"", "", "", "eth0", "lo", "enp0s31f6", "nonexistent0", "br-lan.100"}
+
+// garbageZoned are items with more than one '%': whatever precedes the last '%' is not an address
+var garbageZoned = []string{"192.0.2.1%eth0", "%a", "fe80::1%", "2001:db8::1%eth0"}
 
 var good4 = []string{"10.0.0.1", "192.0.2.1", "0.0.0.0", "255.255.255.255", "127.0.0.1", "224.0.0.1", "224.0.0.252", "239.1.2.3", "::ffff:10.0.0.1"}
 var good6 = []string{"::", "::1", "2001:db8::1", "fe80::1", "ff02::1:2", "ff05::1:3", "ff01::1", "ff02::fb", "2001:DB8:0:0:0:0:0:1", "fd00::10.0.0.1"}
@@ -27,8 +32,14 @@ func genItem(t *rapid.T, v6 bool) Item {
 		it.Addr = rapid.SampledFrom(other).Draw(t, "addr-wrongfam")
 	default:
 		it.Addr = rapid.SampledFrom(garbageAddr).Draw(t, "addr-garbage")
+		if rapid.IntRange(0, 2).Draw(t, "double-percent") == 0 {
+			it.Addr = rapid.SampledFrom(garbageZoned).Draw(t, "addr-zoned")
+		}
 	}
 	it.Zone = rapid.SampledFrom(zones).Draw(t, "zone")
+	if strings.Contains(it.Addr, "%") && it.Zone == "" {
+		it.Zone = "eth1" // address%zone%zone
+	}
 	switch rapid.IntRange(0, 9).Draw(t, "port-kind") {
 	case 0, 1, 2, 3:
 	case 4:
